@@ -90,7 +90,10 @@ Proof.
 Qed.
 
 Lemma pc_wfb_spec p : pc_wf p -> pc_wfb p = true.
-Proof. destruct p; cbn; try reflexivity; try (intros [-> ->]; reflexivity). intros ->. reflexivity. Qed.
+Proof.
+  destruct p; cbn; try reflexivity; try (intros [-> ->]; reflexivity); try (intros ->; reflexivity).
+  intros (-> & -> & A & B). cbn. apply andb_true_iff. split; apply Z.leb_le; assumption.
+Qed.
 
 Theorem inv_code_zero s : Inv1 s -> InvC s -> Inv4 s -> inv_code s = 0.
 Proof.
